@@ -418,6 +418,16 @@ class SymInt(_Num):
 class SymReal(_Num):
     __slots__ = ()
 
+    # numpy object-dtype ufuncs dispatch to methods of the same name
+    def sqrt(self):
+        return wrap(V.s_fn("sqrt", self.e))
+
+    def log(self):
+        return wrap(V.s_fn("log", self.e))
+
+    def exp(self):
+        return wrap(V.s_fn("exp", self.e))
+
     def __floordiv__(self, other):
         return wrap(_floordiv(self.e, unwrap(other)))
 
